@@ -144,7 +144,7 @@ def run(ctx):
         sel_mode = rng.choice(["none", "none", "same", "diff", "slice"]) if n >= 6 else "none"
         big = (k % 40 == 17)                                  # a large system: N * Rg^2 beyond 2e6 nm^2 (lambda^6 beyond the float32 range)
         if big:
-            n, scale, sel_mode, nfr, nref, frame = 20000, 12.0, "none", 1, 1, 0
+            n, scale, sel_mode, nfr, nref, frame = 5000, 25.0, "none", 1, 1, 0
         # full systems: n_tot atoms; the pair lives on the selected atoms
         extra = rng.choice([0, 2, 5]) if sel_mode != "none" else 0
         if sel_mode == "slice":
